@@ -65,6 +65,15 @@ def box(sym: Sym, st: State):
             st.pc.append(typeof(v) == CLASSES.const("tuple" if tup else "list"))
         st.pc.append(unS(v) == sym.t)
         st.pc.append(truthy(v) == (Q.Length(sym.t) > 0))
+        # extensionality of boxed sequences (tuples/lists passed to uninterpreted functions): equal contents,
+        # equal value.  Instantiated pairwise for the sequences boxed in this state (not under binders).
+        if not (st.notes.get("binders") or []):
+            seen = st.notes.get("boxed_seqs") or []
+            if not any(s_.eq(sym.t) for s_, _ in seen):
+                for s_, v_ in seen[-6:]:
+                    if v_.decl().eq(v.decl()):
+                        st.pc.append(z3.Implies(Q.Eq(s_, sym.t), v_ == v))
+                st.notes["boxed_seqs"] = seen + [(sym.t, v)]
         return v
     if k in ("dict", "set"):
         v = fresh("box" + k, V)
